@@ -199,6 +199,10 @@ func AESGCMDecrypt(key, data []byte) ([]byte, error) {
 		return nil, err
 	}
 
+	if len(data) < gcm.NonceSize() {
+		return nil, errcode.ErrCode_ErrInvalidInput
+	}
+
 	nonce, ciphertext := data[:gcm.NonceSize()], data[gcm.NonceSize():]
 
 	plaintext, err := gcm.Open(nil, nonce, ciphertext, nil)
